@@ -97,18 +97,17 @@ def rsaKeyOf (jwk : Json) : Option RsaKey :=
       match jwk.get? m with
       | none => some none
       | some v => (bytesOfJson (some v)).map some
-    match bytesOfJson (some nj), bytesOfJson (some ej), opt "p", opt "q", opt "dp", opt "dq", opt "qi" with
-    | some n, some e, some p, some q, some dp, some dq, some qi =>
+    match bytesOfJson (some nj), bytesOfJson (some ej), opt "d", opt "p", opt "q", opt "dp", opt "dq", opt "qi" with
+    | some n, some e, some dO, some p, some q, some dp, some dq, some qi =>
       let factorsOk := (p.isNone && q.isNone) || (p.isSome && q.isSome)
       let crtOk := (dp.isNone && dq.isNone && qi.isNone) || (dp.isSome && dq.isSome && qi.isSome)
       if factorsOk && crtOk then
-        some { n := n, e := e,
-               d := (match jwk.get? "d" with | some dj => bytesOfJson (some dj) | none => none),
+        some { n := n, e := e, d := dO,
                crt := (match p, q, dp, dq, qi with
                  | some a, some b, some c, some d', some f => some (a, b, c, d', f)
                  | _, _, _, _, _ => none) }
       else none
-    | _, _, _, _, _, _, _ => none
+    | _, _, _, _, _, _, _, _ => none
   | _, _, _ => none
 
 /-! ### algorithm suggestion (`sign.sug`) -/
